@@ -113,6 +113,8 @@ pub fn set_case(args: std::fmt::Arguments) {
     }
 }
 static EAGER_CASE: std::sync::atomic::AtomicBool = std::sync::atomic::AtomicBool::new(false);
+/// progress heartbeat for loops that run many subject calls under one recorded case
+pub fn tick() { CASE_SEQ.fetch_add(1, Ordering::Relaxed); }
 #[macro_export]
 macro_rules! case { ($($arg:tt)*) => { $crate::run::set_case(format_args!($($arg)*)) } }
 
@@ -170,7 +172,7 @@ pub fn install_crash_capture(path: &std::path::Path, case_timeout_s: u64) {
             std::thread::sleep(std::time::Duration::from_millis(500));
             let cur = CASE_SEQ.load(Ordering::SeqCst);
             if cur != last { last = cur; since = std::time::Instant::now(); continue; }
-            if cur != 0 && since.elapsed().as_secs() >= case_timeout_s && !WATCHDOG_PAUSED.load(Ordering::SeqCst) {
+            if cur != 0 && since.elapsed().as_secs() >= case_timeout_s && !WATCHDOG_PAUSED.load(Ordering::SeqCst) && !COMPILER_PHASE.load(Ordering::SeqCst) {
                 // the subject has returned and the engine's own oracle is what is slow: a machinery failure, not a verdict
                 if ORACLE_PHASE.load(Ordering::SeqCst) { write_crash_and_exit("PANIC engine oracle exceeded the per-case time limit", 97); }
                 write_crash_and_exit("TIMEOUT", 98);
@@ -189,6 +191,9 @@ pub fn install_crash_capture(path: &std::path::Path, case_timeout_s: u64) {
 /// set by a check while it evaluates its oracle on a result the subject has already returned
 pub static ORACLE_PHASE: std::sync::atomic::AtomicBool = std::sync::atomic::AtomicBool::new(false);
 pub fn oracle_phase(on: bool) { ORACLE_PHASE.store(on, Ordering::SeqCst); }
+/// set while the engine waits for the C compiler; the per-case timer restarts when the compiler returns
+pub static COMPILER_PHASE: std::sync::atomic::AtomicBool = std::sync::atomic::AtomicBool::new(false);
+pub fn compiler_phase(on: bool) { COMPILER_PHASE.store(on, Ordering::SeqCst); CASE_SEQ.fetch_add(1, Ordering::SeqCst); }
 pub static WATCHDOG_PAUSED: std::sync::atomic::AtomicBool = std::sync::atomic::AtomicBool::new(false);
 pub fn pause_watchdog(p: bool) { WATCHDOG_PAUSED.store(p, Ordering::SeqCst); CASE_SEQ.fetch_add(1, Ordering::SeqCst); }
 
